@@ -139,6 +139,7 @@ type Unit struct {
 	alloc0      string
 	locksUsed   bool
 	frozenHeaps   map[string]*types.Map // pointee heaps of "frozen" registries -> the registry's map type
+	rebinds       []string // clause locals bound by type after a rename (reported in the evidence)
 	distinctHeaps map[string]string // map-value heaps of "distinct" registries -> key sort
 	pendingMapWF  [][2]string       // heap versions (term, key sort) whose stored pointers still need the older-than-alloc fact
 }
